@@ -133,4 +133,56 @@ theorem goRemove_count_le_one (lst : List (Option TId)) (x : TId) (h : lst.count
     rw [hsplit, goRemove_once pre post x hpre hpost, List.erase_append_right _ hpre, List.erase_cons_head]
   · rw [goRemove_absent lst x hm, List.erase_of_not_mem hm]
 
+theorem removed_take_sublist (arr : List (Option TId)) (idx len : Nat) (h1 : idx + 1 ≤ len) (h2 : len ≤ arr.length) :
+    (((arr.take idx) ++ ((arr.drop (idx+1)).take (len - idx - 1)) ++ (arr.drop (len - 1))).take (len - 1)).Sublist (arr.take len) ∧
+    ((arr.take idx) ++ ((arr.drop (idx+1)).take (len - idx - 1)) ++ (arr.drop (len - 1))).length = arr.length := by
+  have hA : (arr.take idx).length = idx := by simp; omega
+  have hB : ((arr.drop (idx+1)).take (len - idx - 1)).length = len - idx - 1 := by simp; omega
+  constructor
+  · have e1 : ((arr.take idx) ++ ((arr.drop (idx+1)).take (len - idx - 1)) ++ (arr.drop (len - 1))).take (len - 1)
+        = (arr.take idx) ++ ((arr.drop (idx+1)).take (len - idx - 1)) := by
+      rw [List.take_append_of_le_length (by simp; omega)]
+      apply List.take_of_length_le
+      simp; omega
+    rw [e1]
+    have e2 : arr.take len = arr.take idx ++ (arr.drop idx).take (len - idx) := by
+      have : len = idx + (len - idx) := by omega
+      conv => lhs; rw [this, List.take_add]
+    have e3 : (arr.drop idx).take (len - idx) = arr[idx]'(by omega) :: (arr.drop (idx+1)).take (len - idx - 1) := by
+      rw [List.drop_eq_getElem_cons (by omega)]
+      have : len - idx = (len - idx - 1) + 1 := by omega
+      rw [this, List.take_succ_cons]
+      simp
+    rw [e2, e3]
+    exact List.Sublist.append_left (List.sublist_cons_self _ _) _
+  · simp only [List.length_append, hA, hB, List.length_drop]; omega
+
+theorem goRemoveLoop_sublist (x : Option TId) : ∀ (fuel idx : Nat) (arr : List (Option TId)) (len : Nat) (r : List (Option TId) × Nat),
+    len ≤ arr.length → goRemoveLoop x fuel idx arr len = some r → (r.1.take r.2).Sublist (arr.take len) := by
+  intro fuel
+  induction fuel with
+  | zero => intro idx arr len r _ e; simp only [goRemoveLoop] at e; cases e; exact List.Sublist.refl _
+  | succ n ih =>
+    intro idx arr len r hlen e
+    simp only [goRemoveLoop] at e
+    split at e
+    · split at e
+      · cases e
+      · rename_i hp
+        have hp' : idx + 1 ≤ len := by omega
+        obtain ⟨s1, s2⟩ := removed_take_sublist arr idx len hp' hlen
+        exact (ih _ _ _ _ (by rw [s2]; omega) e).trans s1
+    · exact ih _ _ _ _ hlen e
+
+/-- Go's in-place removal only ever drops entries: the list afterwards is a sublist of the list before (also when the removed id
+occurs several times) -/
+theorem goRemove_sublist (lst r : List (Option TId)) (x : TId) (e : goRemove lst x = some r) : r.Sublist lst := by
+  unfold goRemove at e
+  split at e
+  · rename_i arr len h
+    cases e
+    have := goRemoveLoop_sublist (some x) _ _ _ _ _ (Nat.le_refl _) h
+    simpa using this
+  · cases e
+
 end Bxh.Exec
